@@ -11,7 +11,7 @@ FAIL_PATTERNS = [
     "postcondition not satisfied", "precondition not satisfied", "assertion failed",
     "invariant not satisfied", "possible arithmetic underflow/overflow", "possible division by zero",
     "decreases not satisfied", "possible bit shift underflow/overflow", "index out of bounds",
-    "recommendation not met", "might not be allowed", "unable to prove", "loop invariant",
+    "recommendation not met", "precondition not met", "might not be allowed", "unable to prove", "loop invariant",
     "assertion failure", "possible", "not satisfied", "cannot show", "simplifies to false",
 ]
 UNDECIDED_PATTERNS = ["rlimit", "resource limit", "timed out", "timeout", "could not finish", "canceled", "incomplete"]
@@ -51,13 +51,41 @@ def func_at(gen_text_lines, g, line):
 
 
 def run_unit(unit, rlimit=None, timeout=600, extra=()):
+    """run_unit_once, plus the missing-method auto-import: when the current code calls an inherent Uint method that the unit
+    template does not declare (rustc E0599) and another unit holds that method's contract, import it and try again"""
+    imports = []
+    res = None
+    for _round in range(4):
+        res = run_unit_once(unit, rlimit, timeout, extra, tuple(imports))
+        if res["status"] != "undecided":
+            break
+        missing = []
+        for u in res["undecided"]:
+            m = re.search(r"no method named `(\w+)` found for (?:struct|reference) `&?(?:mut )?Uint<", u.get("message", "")) or \
+                re.search(r"no (?:function or )?associated (?:item|function) named `(\w+)` found for struct `Uint<", u.get("message", ""))
+            if m:
+                missing.append(m.group(1))
+        new = []
+        for fn in missing:
+            u2 = U.find_method_unit(fn)
+            if u2 and u2 != unit and (u2, fn) not in imports and (u2, fn) not in new:
+                new.append((u2, fn))
+        if not new:
+            break
+        imports += new
+    if imports:
+        res["auto_imports"] = ["%s::%s" % x for x in imports]
+    return res
+
+
+def run_unit_once(unit, rlimit=None, timeout=600, extra=(), extra_imports=()):
     """returns dict with keys: unit, status (ok|failed|undecided), verified, errors,
     failures[], undecided[], functions[], trusted[], wall_s, gen (function infos)"""
     t0 = time.time()
     res = {"unit": unit, "status": "undecided", "verified": 0, "errors": 0, "failures": [], "undecided": [],
            "functions": [], "trusted": [], "gen": [], "smt_ms": 0, "rlimit_max": 0}
     try:
-        g = U.gen_unit(unit)
+        g = U.gen_unit(unit, extra_imports=extra_imports)
     except (U.UnitError, Exception) as ex:  # extraction problems are never violations
         res["undecided"].append({"kind": "extraction", "message": "%s: %s" % (type(ex).__name__, ex)})
         res["wall_s"] = time.time() - t0
